@@ -14,6 +14,9 @@ VERIF = os.path.dirname(os.path.dirname(os.path.abspath(__file__)))
 REPO = os.environ.get("VERIF_REPO", "/repo")
 OUT = os.path.join(VERIF, "out")
 EVID = os.path.join(VERIF, "evidence")
+if os.path.realpath(REPO) != "/repo":
+    # runs against a scratch tree (mutants, seeded changes) never touch the evidence
+    EVID = os.path.join(OUT, "evidence_scratch")
 KNOWN = os.path.join(VERIF, "known_findings.json")
 
 MAX_SIGS = 400
